@@ -19,6 +19,18 @@ CLAIMED = {
             "products and arch_lzcnt modelled; aliasing and input-unchanged clauses observed on the implementation only; bn_sqr_basic "
             "(bn_sqra_low) compared but not modelled separately.",
             "DESIGN.md §5 C01"),
+    "C14": ("Lean 4 proofs (streaming SHA-256 = FIPS 180-4 for every chunking; md_hmac/nist_kdf/md_xmd = RFC 2104 / MGF1-KDF2 / RFC 9380; "
+            "PKCS#7 + CBC round trip and rejection logic) + correspondence against standard-derived Lean specs",
+            "Proved in Lean for the model: the streaming SHA-256 implementation equals the one-shot FIPS 180-4 definition for every message "
+            "length and every chunking; HMAC for all key lengths, the counter KDF/MGF for all output lengths, expand_message_xmd incl. its abort "
+            "conditions equal their standards (hash abstract); PKCS#7 unpad∘pad = id, padEncrypt/padDecrypt = CBC∘PKCS#7 of the spec for every "
+            "length incl. 0, decryption returns data only for well-formed padding, dec∘enc = id given the block-cipher inverse. Tie: SHA-224/256/"
+            "384/512, BLAKE2s, HMAC, KDF, MGF, XMD and AES-CBC outputs of the library are compared with executable Lean definitions written "
+            "from the standards on all lengths around every padding boundary, all key sizes, corrupted ciphertexts and short buffers.",
+            "Trusted: Lean kernel; hand-written models tied by correspondence; compression functions, the table-driven AES rounds and BLAKE2s "
+            "are compared with the spec but not proved (the block-cipher inverse is a hypothesis of the CBC theorem); SHA-224/384/512 streaming "
+            "is compared one-shot only.",
+            "DESIGN.md §5 C14"),
     "C15": ("Lean 4 refinement proof (byte-level DRBG model ⊑ SP 800-90A spec, induction over histories) + correspondence run",
             "Proved in Lean for the model: for every hash with 32-byte output, every non-empty seed and every history of generate/reseed "
             "calls shorter than 2^31-258 operations, the model's byte stream equals the SP 800-90A Hash_DRBG stream; over-limit requests and "
